@@ -46,7 +46,7 @@ func semBatchSeq(ctx *core.Ctx, idx int, res *core.Result, cs []*gen.Change, src
 	}
 	for pi, runs := range paths {
 		for i, src := range srcs {
-			v := judgeSeq(pats, src, runs[i])
+			v := judgeSeq(pats, src, runs[i], addedImports(cs...)...)
 			res.Evals++
 			res.Ob("runs:"+names[pi], 1)
 			if v.Inconcl != "" {
@@ -108,6 +108,18 @@ func runC01(ctx *core.Ctx, idx int) *core.Result {
 	g := gen.NewG(r)
 	g.Comment = r.Intn(3) == 0
 	c := g.RandomChange()
+	if idx%3 == 1 {
+		// pattern abstracted from a generated code fragment: reaches every node kind on both sides
+		if ac := g.AbstractChange([]string{"expr", "stmts", "decl"}[(idx/3)%3]); ac != nil {
+			c = ac
+			res.Ob("patterns:abstracted-from-code:"+ac.Kind, 1)
+		}
+	}
+	if idx%7 == 3 {
+		// the patch also adds an import (files without an import declaration get a new declaration in front)
+		withAddedImport(c)
+		res.Ob("patterns:with-added-import", 1)
+	}
 	var srcs, extra []string
 	nfiles := 5
 	for f := 0; f < nfiles; f++ {
